@@ -87,6 +87,14 @@ def _cheap(e):
         and len(e.args) == 1 and not e.keywords and _simple(e.args[0])
 
 
+def _as_load(e):
+    e = copy.deepcopy(e)
+    for x in ast.walk(e):
+        if hasattr(x, 'ctx'):
+            x.ctx = ast.Load()
+    return e
+
+
 def _getter_lambda(call):
     """lambda for itemgetter(...)/attrgetter(...) with literal arguments, else None"""
     if not (isinstance(call, ast.Call) and not call.keywords and call.args):
@@ -740,6 +748,36 @@ class _Rewrite(ast.NodeTransformer):
         return node
 
     visit_Tuple = visit_List = _splice
+
+    def visit_Assign(self, node):
+        # x = x + e / x = x - e (same simple target): the augmented form x += e
+        self.generic_visit(node)
+        if len(node.targets) == 1 and isinstance(node.value, ast.BinOp) and isinstance(node.value.op, (ast.Add, ast.Sub)) \
+                and isinstance(node.targets[0], (ast.Name, ast.Attribute, ast.Subscript)) and _simple(node.targets[0]) \
+                and ast.dump(_as_load(node.targets[0])) == ast.dump(node.value.left) and not any(
+                    ast.dump(x) == ast.dump(node.value.left) for x in ast.walk(node.value.right)) and not isinstance(
+                        node.value.right, (ast.List, ast.Tuple, ast.ListComp, ast.Dict, ast.Set, ast.JoinedStr)) and not (
+                            isinstance(node.value.right, ast.Constant) and isinstance(node.value.right.value, str)):
+            # (a list concatenation `xs = xs + [y]` rebinds, `xs += [y]` mutates: left as it is)
+            self.changed += 1
+            return ast.copy_location(ast.AugAssign(target=node.targets[0], op=node.value.op, value=node.value.right), node)
+        return node
+
+    _MIRROR = {ast.Lt: ast.Gt, ast.Gt: ast.Lt, ast.LtE: ast.GtE, ast.GtE: ast.LtE, ast.Eq: ast.Eq, ast.NotEq: ast.NotEq,
+               ast.Is: ast.Is, ast.IsNot: ast.IsNot}
+
+    def visit_Compare(self, node):
+        # `0 < x`, `None is x`: the literal goes to the right (`x > 0`, `x is None`)
+        self.generic_visit(node)
+
+        def lit(e):
+            return isinstance(e, ast.Constant) or (isinstance(e, ast.UnaryOp) and isinstance(e.op, ast.USub)
+                                                   and isinstance(e.operand, ast.Constant))
+        if len(node.ops) == 1 and type(node.ops[0]) in self._MIRROR and lit(node.left) and not lit(node.comparators[0]):
+            self.changed += 1
+            return ast.copy_location(ast.Compare(left=node.comparators[0], ops=[self._MIRROR[type(node.ops[0])]()],
+                                                 comparators=[node.left]), node)
+        return node
 
     def visit_IfExp(self, node):
         self.generic_visit(node)
